@@ -67,8 +67,9 @@ CHECKS = {
              "satisfies the reduced system it is handed: the result takes exactly the prescribed values at Dirichlet vertices "
              "(dirichlet_exact) and satisfies (A x)_i = (B(h-n))_i at every other vertex (interior_eq / run_spec); the right-hand side is "
              "linear in (h, Neumann, Dirichlet data). The matrices are those of C01/C02 (bridged). The reduced matrix and right-hand "
-             "side actually handed to SuperLU and the re-insertion are captured in-process and compared with the model; the solve "
-             "contract is monitored (residual).",
+             "side actually handed to SuperLU and the re-insertion are captured in-process and compared with the model; the glue of "
+             "Solver.poisson itself is re-traced from source on symbolic 4x4 matrices (unsorted Dirichlet indices, Neumann data, "
+             "no-Dirichlet branch) with a symbolic sparse-matrix shim and bridged to the model by proof; the solve contract is monitored (residual).",
         ref="DESIGN.md 6/C05",
         note=NOTE + "SuperLU's exact solve of the nonsingular reduced system is assumed (monitored); uniqueness/affine reproduction are evaluated by the search oracle, the balanced-vertex theorem is in progress.",
         technique="Lean 4 proof (induction over the triplet list, relative to the solve contract) tied by captured-argument comparison and differential driver"),
